@@ -63,4 +63,11 @@ theorem process_deals_order :
     before processDeals "deal-index-check" "d.instance.ProcessDeal" = true ∧
     before processDeals "d.instance.ProcessDeal" "d.processDealCommits" = true := by decide
 
+/-- the stored deals are examined in a fixed order (fix 6d0dc23): the Schnorr nonces of the responses come from the round's
+seeded stream, so the same deals handled again - a replay, a machine made from the same mnemonic - are signed response by
+response with the same nonces; a map range would pair a nonce with ANOTHER response (two signatures with one nonce give the
+long-term key away: airdiff `C04 nonce_reuse`). The model's answers never depended on the order (Props/C12AirOrder.lean); the
+signatures are below the model. -/
+theorem process_deals_in_a_fixed_order : processDealsFixedOrder = true := by decide
+
 end Dc4bcVerif.Props.AirDkgSrc
